@@ -374,6 +374,7 @@ func GenVal(r *hx.Rng, t *Ty, maxLen int) *Val {
 }
 
 func encStr(b *bytes.Buffer, s []byte) {
+	notePos(b)
 	var t [4]byte
 	binary.LittleEndian.PutUint32(t[:], uint32(len(s)))
 	b.Write(t[:])
@@ -385,6 +386,24 @@ func (v *Val) Enc() []byte {
 	var b bytes.Buffer
 	v.enc(&b)
 	return b.Bytes()
+}
+
+// EncPos also returns the offsets of every 4-byte length / count field of the encoding.
+func (v *Val) EncPos() ([]byte, []int) {
+	var b bytes.Buffer
+	posSink = &[]int{}
+	v.enc(&b)
+	p := *posSink
+	posSink = nil
+	return b.Bytes(), p
+}
+
+var posSink *[]int
+
+func notePos(b *bytes.Buffer) {
+	if posSink != nil {
+		*posSink = append(*posSink, b.Len())
+	}
 }
 func (v *Val) enc(b *bytes.Buffer) {
 	switch v.K {
@@ -401,6 +420,7 @@ func (v *Val) enc(b *bytes.Buffer) {
 	case VStr:
 		encStr(b, v.S)
 	case VList:
+		notePos(b)
 		var t [4]byte
 		binary.LittleEndian.PutUint32(t[:], uint32(len(v.L)))
 		b.Write(t[:])
@@ -408,6 +428,7 @@ func (v *Val) enc(b *bytes.Buffer) {
 			x.enc(b)
 		}
 	case VMap:
+		notePos(b)
 		var t [4]byte
 		binary.LittleEndian.PutUint32(t[:], uint32(len(v.KV)))
 		b.Write(t[:])
